@@ -34,22 +34,9 @@ func (h *EventHandler) OnAdd(obj any, _ bool) {
 		return
 	}
 
-	h.lock.Lock()
-	defer h.lock.Unlock()
-
-	var changed bool
-	for _, sub := range endpoints.Subsets {
-		for _, point := range sub.Addresses {
-			if _, ok := h.endpoints[point.IP]; !ok {
-				h.endpoints[point.IP] = lang.Placeholder
-				changed = true
-			}
-		}
-	}
-
-	if changed {
-		h.notify()
-	}
+	// only the endpoints object of the target service is watched,
+	// so the added object lists all the current endpoints.
+	h.Update(endpoints)
 }
 
 // OnDelete handles the endpoints delete events.
